@@ -12,7 +12,7 @@ from .c03 import snapshot, leftover
 
 ID = 'C17'
 LEVEL = 'fault_enumeration'
-RULE = ('queries {answers found at different depths, the deep ones behind a comparison of constants whose equality is decided by Python code (a Fraction); a findall over 300 facts (the builtin holds the query while the answer is delivered); finite flat facts; a fact whose second argument is a 60-element list (the limit strikes inside the element-by-element match, after the first argument was bound) - compiled and as a dynamic fact, against ground lists and lists of variables; len/2 on lists of length 5, 20, 60; app/3 splitting a list; nat/1 and even/odd '
+RULE = ('(after the bounded call the queries over dynamic facts - among them reach(n0, Q) over 12 edge/2 facts, which asks the facts with a different atom first argument at every depth - are enumerated again on the SAME engine without a bound: the answers are the reference answers) queries {answers found at different depths, the deep ones behind a comparison of constants whose equality is decided by Python code (a Fraction); a findall over 300 facts (the builtin holds the query while the answer is delivered); finite flat facts; a fact whose second argument is a 60-element list (the limit strikes inside the element-by-element match, after the first argument was bound) - compiled and as a dynamic fact, against ground lists and lists of variables; len/2 on lists of length 5, 20, 60; app/3 splitting a list; nat/1 and even/odd '
         '(infinitely many answers, each deeper); left recursion lp(X) :- lp(X). lp(a). (diverges before any answer); a '
         'rule with a deep failing branch between answers; registered Python predicates whose clean-up (finally) code needs 0, 3, 12 or 30 nested calls, queried directly and through call/1; predicates answered from two sources (dynamic facts followed by compiled clauses, dynamic facts followed by a Python predicate); a Python predicate that yields True; a dynamic fact with a variable 12 levels deep (after every call two uses of it at once must still be independent)} x EVERY recursion_limit from 8 to 400 (each value moves the '
         'point at which the limit strikes; quick: every value up to 89, then every 14th) x projection functions {identity, observe the variables, '
@@ -56,6 +56,9 @@ PROGRAM = [
     (F('all300', V('Lb')), call(F('findall', X, F('n300', X), V('Lb')))),
 ] + [(F('n300', C(i)), None) for i in range(300)] + [
     (F('deep', A('first')), None), (F('deep', X), conj(call(F('len', V('Lg'), F('s', F('s', F('s', A('z')))))), call(F('nat', X)))),
+    # dynamic facts reached with a DIFFERENT atom as first argument at every depth (whatever an engine builds lazily per
+    # key is built at another stack depth for every key)
+    (F('reach', X, X), None), (F('reach', X, V('Yr')), conj(call(F('edge', X, V('Zr'))), call(F('reach', V('Zr'), V('Yr'))))),
 ]
 
 
@@ -67,7 +70,11 @@ from fractions import Fraction  # noqa: E402
 HALF = C(Fraction(1, 2))
 DYN_FACTS = [F('wconst', HALF),
              F('bigd', A('first'), L([C(i) for i in range(60)])), F('bigd', A('second'), L([C(i) for i in range(45)] + [A('x')])),
-             F('mixd', A('d1')), F('mixd', A('d2')), F('pyg3', C(0)), F('vfact', DEEP(V('Fv')))]
+             F('mixd', A('d1')), F('mixd', A('d2')), F('pyg3', C(0)), F('vfact', DEEP(V('Fv')))] + \
+    [F('edge', A('n%d' % i), A('n%d' % (i + 1))) for i in range(12)]
+# queries that are enumerated AGAIN, unbounded, on the same engine after the bounded call: an aborted evaluation
+# leaves the engine answering as before
+PROBED = ('dynamic-by-key', 'mixed-sources', 'big-dynamic', 'flat')
 
 
 def register_python(yp):
@@ -114,7 +121,7 @@ def lst(n):
 def queries():
     return [('flat', F('col', V('Q'))), ('len5', F('len', lst(5), V('Q'))), ('len20', F('len', lst(20), V('Q'))),
             ('len60', F('len', lst(60), V('Q'))), ('app', F('app', V('Q'), V('Q2'), lst(6))), ('nat', F('nat', V('Q'))),
-            ('evenodd', F('ev', V('Q'))), ('leftrec', F('lp', V('Q'))), ('deep', F('deep', V('Q')))] + \
+            ('evenodd', F('ev', V('Q'))), ('leftrec', F('lp', V('Q'))), ('deep', F('deep', V('Q'))), ('dynamic-by-key', F('reach', A('n0'), V('Q')))] + \
         [('big-dynamic', F('bigd', V('Q'), lst(60))), ('big-variables', F('big', V('Q'), L([V('E%d' % i) for i in range(60)]))),
          ('big-dynamic-variables', F('bigd', V('Q'), L([V('E%d' % i) for i in range(45)], V('Et')))),
          ('big', F('big', V('Q'), lst(60))), ('big-tail', F('big', V('Q'), L([C(i) for i in range(30)], V('Q2')))), ('same', F('eqq', lst(60), lst(60)))] + \
@@ -288,6 +295,16 @@ def one_call(pytext, qname, goal, limit, pname, exp, need_depth, bystander=False
         n2 = len(list(yp.query('vboth', [])))
         if n2 != 1:
             return ('engine-changed-by-bounded-call', 'after the call, vboth :- vfact(A), vfact(B), A = s^12(a), B = s^12(b) has %d answers instead of 1 (the fact is vfact(s^12(_)))' % n2), None
+    if r[0] is None and qname in PROBED and exp['complete']:
+        vm = {}
+        args = [impl.to_engine(yp, x, vm) for x in goal[2]]
+        obs = [impl.to_engine(yp, ('v', k), vm) for k in term_vars(goal)]
+        again = [impl.observe(obs) for _ in yp.query(goal[1], args)]
+        if again != exp['answers']:
+            if by is not None:
+                by[1].close()
+            return ('engine-changed-by-bounded-call', 'after evaluate_bounded(recursion_limit=%d) returned, the same query enumerated again on the same engine without a bound gives %s instead of %s'
+                    % (limit, show_answers(again), show_answers(exp['answers']))), None
     if by is not None and r[0] is None:
         bv, bq = by
         rest = [impl.observe([bv])]
